@@ -29,8 +29,10 @@ no error is logged except for callbacks the scenario makes raise.
 
 import asyncio
 import signal as _signal
+from asyncio import events as _events
 
 from sim.env import SimEnv
+from sim.loop import SimLoop
 from sim.procs import Installed, ProcWorld, SeamBreach, exit_status, returncode_of, signal_status
 
 ID = "C42"
@@ -77,7 +79,8 @@ def gen(rng, tier, index):
     children = []
     for c in range(k):
         r = rng.random()
-        ch = {"sig": 0, "core": 0, "code": 0, "mode": rng.choice([0, 0, 1, 2, 3, 3]), "raises": 0}
+        ch = {"sig": 0, "core": 0, "code": 0, "mode": rng.choice([0, 0, 1, 2, 3, 3]), "raises": 0,
+              "loop": 0}
         if r < 0.3:
             pass
         elif r < 0.65:
@@ -123,6 +126,22 @@ def gen(rng, tier, index):
             ops.insert(rng.randint(p + 1, len(ops)), ["init", 0])
     elif rng.random() < 0.05:
         ops.insert(rng.randint(0, len(ops)), ["init", 0])
+    # second event loop ("worker thread"): some children live there; SIGCHLD stays on the main
+    # loop, which usually (not always) has been designated by an explicit initialize() first
+    r2 = rng
+    if r2.random() < 0.25:
+        for ch in children:
+            if r2.random() < 0.55:
+                ch["loop"] = 1
+        if r2.random() < 0.65:
+            ops.insert(0, ["init", 0])
+        elif r2.random() < 0.5:
+            # a registration that failed on the worker loop may be retried later
+            regs = [o for o in ops if o[0] == "reg" and children[o[1]]["loop"]]
+            if regs:
+                ops.append(["reg", r2.choice(regs)[1]])
+                if r2.random() < 0.7:
+                    ops.append(["chld", 0])
     for o in ops:
         o.append(rng.choice(PAUSES))
     reuse = []
@@ -137,7 +156,7 @@ def validate(scn):
         for ch in scn["children"]:
             if not (isinstance(ch, dict) and 0 <= ch["sig"] <= 64 and 0 <= ch["code"] <= 255
                     and ch["mode"] in (0, 1, 2, 3) and ch["core"] in (0, 1)
-                    and ch["raises"] in (0, 1)):
+                    and ch["raises"] in (0, 1) and ch.get("loop", 0) in (0, 1)):
                 return False
         for o in scn["ops"]:
             if not (isinstance(o, list) and len(o) == 3 and o[0] in KINDS
@@ -183,7 +202,66 @@ def run(scn, full_log=False):
         cb_calls = [[] for _ in range(nC)]
         futs = [None] * nC
         chld = []  # (op index, handler installed according to the model)
-        st = {"i": 0, "init": False, "raised": 0, "perturbed": 0}
+        wres = [None] * nC  # what the coroutine awaiting wait_for_exit() saw
+        st = {"i": 0, "init": False, "raised": 0, "perturbed": 0, "inject": False}
+        on_worker = [bool(ch.get("loop", 0)) for ch in children]
+        # The worker loop stands for an IOLoop running in another thread.  Threads are modelled
+        # by turns: the worker loop runs (to quiescence) only when its wake-up fd was written
+        # (call_soon_threadsafe / IOLoop.add_callback from outside) - exactly what a selector
+        # blocked without timeout does; work put on it with plain call_soon from the main
+        # "thread" is not seen until something else wakes it.  asyncio refuses signal handlers
+        # outside the main thread, so add_signal_handler on the worker loop raises.
+        wloop = None
+        if any(on_worker):
+            wloop = SimLoop(env.tapes, log, max_iters=20_000)
+            wloop.set_exception_handler(env._on_loop_error)
+
+            def _no_signals(*a, **k):
+                st["inject"] = True
+                probe("worker_loop_add_signal_handler_refused")
+                raise RuntimeError("set_wakeup_fd only works in main thread of the main interpreter")
+            wloop.add_signal_handler = _no_signals
+            wloop.remove_signal_handler = _no_signals
+
+        def turn_worker(force=False):
+            if wloop is None or not (wloop._woken or force):
+                if wloop is not None and wloop._ready:
+                    probe("worker_loop_has_unseen_work")
+                return False
+            wloop._woken = False
+            prev = _events._get_running_loop()
+            _events._set_running_loop(None)
+            try:
+                log.ev("worker_turn")
+                wloop.run_until_quiescent()
+            finally:
+                _events._set_running_loop(prev)
+            probe("worker_loop_turns")
+            return True
+
+        def on_loop_of(c, fn):
+            if not on_worker[c]:
+                return fn()
+            box = {}
+
+            def wrapper():
+                try:
+                    box["r"] = fn()
+                except BaseException as e:  # handed back to the caller's "thread"
+                    box["e"] = e
+            wloop.call_soon_threadsafe(wrapper)
+            turn_worker()
+            if "e" in box:
+                raise box["e"]
+            return box.get("r")
+
+        async def awaiter(c, f):
+            try:
+                v = await f
+                wres[c] = ("res", v)
+            except Exception as e:
+                wres[c] = ("exc", e)
+            log.ev("awaiter_done", c, wres[c][0])
 
         def spawn(c):
             sp[c] = tp.Subprocess(["child", str(c)])
@@ -215,6 +293,7 @@ def run(scn, full_log=False):
                     f = sp[c].wait_for_exit(raise_error=False)
                 futs[c] = f
                 f.add_done_callback(lambda f, c=c: log.ev("fut_done", c))
+                asyncio.get_running_loop().create_task(awaiter(c, f))
 
         def deliver(i):
             installed = st["init"]
@@ -250,6 +329,13 @@ def run(scn, full_log=False):
             else:
                 for _ in range(min(p, 3)):
                     await asyncio.sleep(0)
+            turn_worker()
+
+        async def settle():
+            for _ in range(6):
+                await loop.idle()
+                if not turn_worker():
+                    break
 
         async def main():
             for i, op in enumerate(ops):
@@ -260,19 +346,34 @@ def run(scn, full_log=False):
                         if c >= nC:
                             continue
                         if sp[c] is None:
-                            spawn(c)
+                            on_loop_of(c, lambda: spawn(c))
                     if kind == "exit":
                         if exit_idx[c] is None:
                             sp[c].proc.sim_exit(status[c])
                             exit_idx[c] = i
                     elif kind == "reg":
                         if reg_idx[c] is None:
+                            was_init = st["init"]
                             reg_idx[c] = i
                             st["init"] = True
-                            if exit_idx[c] is not None:
-                                probe("exit_before_registration")
+                            st["inject"] = False
+                            try:
+                                on_loop_of(c, lambda: register(c))
+                            except RuntimeError:
+                                if not st["inject"]:
+                                    raise
+                                # the SIGCHLD handler could not be installed from the worker
+                                # "thread": this registration did not happen
+                                reg_idx[c] = None
+                                st["init"] = was_init
                                 st["perturbed"] += 1
-                            register(c)
+                                probe("registration_refused_on_worker_loop")
+                            else:
+                                if on_worker[c]:
+                                    probe("registered_on_worker_loop")
+                                if exit_idx[c] is not None:
+                                    probe("exit_before_registration")
+                                    st["perturbed"] += 1
                     elif kind == "chld":
                         deliver(i)
                     elif kind == "uninit":
@@ -290,18 +391,32 @@ def run(scn, full_log=False):
                     bad("api.raised", f"op {i} {kind}({c}) raised {type(e).__name__}: {e}",
                         f"api.raised/{kind}/{type(e).__name__}")
                 await pause(p)
-            await loop.idle()
+            await settle()
             # kernel: a SIGCHLD is delivered at or after the last exit
             last_exit = max((x for x in exit_idx if x is not None), default=None)
             if last_exit is not None and not any(ci > last_exit for ci, _ in chld):
                 probe("epilogue_sigchld")
                 deliver(len(ops))
-            await loop.idle()
+            await settle()
 
         with Installed(world, env.breaches):
             run_status = env.run(main())
             waiting = list(tp.Subprocess._waiting.items())
             handler_left = SIGCHLD in loop.signal_handlers
+            if wloop is not None:
+                # end of the worker "thread": nothing of it may leak into the next run
+                try:
+                    for t in asyncio.all_tasks(wloop):
+                        t.cancel()
+                    for h in list(wloop._scheduled):
+                        h.cancel()
+                    turn_worker(force=True)
+                    from tornado.ioloop import IOLoop
+                    IOLoop._ioloop_for_asyncio.pop(wloop, None)
+                    wloop._ready.clear()
+                    wloop.close()
+                except Exception as e:  # pragma: no cover
+                    bad("harness.worker_loop_cleanup", repr(e))
 
         if run_status != "done":
             bad("harness.run_status", f"{run_status}: {getattr(env, 'main_exception', None)!r}",
@@ -333,6 +448,8 @@ def run(scn, full_log=False):
                 calls = cb_calls[c]
                 if calls:
                     reported += 1
+                    if on_worker[c]:
+                        probe("reported_on_worker_loop")
                 if len(calls) > 1:
                     bad("callback.more_than_once", f"child {c}: exit callback ran {len(calls)} times "
                         f"with {calls}", "callback.more_than_once")
@@ -353,21 +470,27 @@ def run(scn, full_log=False):
                 raise_error = ch["mode"] in (1, 2)
                 if f is None:
                     continue
-                if not f.done():
+                seen = wres[c]
+                if seen is None:
+                    if f.done() and not f.cancelled():
+                        f.exception()  # retrieved
                     if due:
-                        bad("wait.never_resolves", f"child {c} ({timing}): exited with status "
-                            f"{status[c]:#x}, wait_for_exit future still pending",
-                            f"wait.never_resolves/{timing}")
+                        how = ("future still pending" if not f.done() else
+                               "future was completed but the coroutine awaiting it on its own "
+                               "event loop was never resumed")
+                        where = "worker_loop" if on_worker[c] else "main_loop"
+                        bad("wait.never_resolves", f"child {c} ({timing}, {where}): exited with "
+                            f"status {status[c]:#x}, {how}",
+                            f"wait.never_resolves/{timing}" + ("/worker_loop" if on_worker[c] else ""))
                     continue
                 reported += 1
+                if on_worker[c]:
+                    probe("reported_on_worker_loop")
                 if not exited:
                     bad("wait.before_exit", f"child {c}: future resolved, child still running")
-                if f.cancelled():
-                    bad("wait.cancelled", f"child {c}: future cancelled")
-                    continue
-                exc = f.exception()
+                exc = seen[1] if seen[0] == "exc" else None
                 if exc is None:
-                    v = f.result()
+                    v = seen[1]
                     if raise_error and exp != 0:
                         bad("wait.no_error_raised", f"child {c}: status {exp} with raise_error set "
                             f"resolved with {v!r} instead of CalledProcessError",
